@@ -98,13 +98,13 @@ def independent_siblings(u, res, m: Model, rng):
     return out[:2]
 
 
-def run_one(seed, tier):
+def run_one(seed, tier, explicit=None):
     rng = subseed(seed, 'universe')
     prof = U.Profile.draw(rng)
     prof['max_entries'] = min(prof['max_entries'], 4)
     prof['max_synsets'] = min(prof['max_synsets'], 4)
     prof['p_lexframe_senses'] = rng.choice([0.0, 0.5, 1.0])
-    u = U.generate(rng, prof)
+    u = explicit['universe'] if explicit else U.generate(rng, prof)
     prng = subseed(seed, 'plan')
     sim = Enum(u, seed, PROP, ['installed'])
     sim.W.shuffle_dirs = True
@@ -112,12 +112,16 @@ def run_one(seed, tier):
     pre = [op for op in P.history(prng, u, prng.randint(0, 3),
                                   {'routes': False, 'batch': False, 'short_reads': False},
                                   model=Model(u)) if op['op'] != 'checkpoint']
+    if explicit:
+        pre = explicit['pre']
     stats = {'evals': 0, 'nontrivial': set(), 'routes': {}}
     violation = None
     compare.KNOWN_HITS.clear()
     compare.ENABLED_FINDINGS.clear()
     compare.ENABLED_FINDINGS.update(enabled_findings())
     tgt = None
+    sibs = []
+    quote = '"'
     try:
         try:
             for op in pre:
@@ -129,7 +133,12 @@ def run_one(seed, tier):
                 or u['resources']
             tgt = prng.choice(cands)
             sibs = independent_siblings(u, tgt, sim.m, prng)
-            data = xmlout.resource_xml(u, tgt, quote=prng.choice(['"', "'"]))
+            quote = prng.choice(['"', "'"])
+            if explicit:
+                tgt = sim.res[explicit['target']]
+                sibs = [sim.res[n] for n in explicit['siblings']]
+                quote = explicit['quote']
+            data = xmlout.resource_xml(u, tgt, quote=quote)
             sib_data = [(r['name'], xmlout.resource_xml(u, r)) for r in sibs]
             todo = sim.m.plan_add(tgt['lexicons'])
             pre_dump = strip_order(observe.logical_dump(sim.W.dbpath()))
@@ -186,7 +195,7 @@ def run_one(seed, tier):
                 sim.W.restart()
                 ref_col = strip_order(observe.logical_dump(sim.W.dbpath()), ili_defs=False)
             routes = list(xmlout.ROUTES)
-            for route in routes:
+            for route in (explicit['routes'] if explicit and explicit.get('routes') else routes):
                 is_col = route == 'col' or route.endswith('-col')
                 sim.load()
                 fresh_add(route, 'a', is_col)
@@ -196,6 +205,7 @@ def run_one(seed, tier):
                 if todo:
                     stats['nontrivial'].add((tgt['name'], route))
                 got = strip_order(observe.logical_dump(sim.W.dbpath()), ili_defs=not is_col)
+                sim.W.log(route=route, state=observe.digest(got))
                 want = (ref_col if (is_col and ref_col is not None)
                         else strip_order_again(ref, not is_col))
                 d = first_diff(want, got)
@@ -259,8 +269,12 @@ def run_one(seed, tier):
             'sample': {'pre_history': pre, 'target': tgt and tgt['lexicons'],
                        'routes': list(stats['routes']),
                        'universe': plan_summary(u, [])['lexicons']},
-            'replay': {'universe': u, 'pre': pre, 'seed_note': 'routes are enumerated; replay '
-                       're-derives target and siblings from the seed'},
+            'replay': {'universe': u, 'pre': pre, 'target': tgt and tgt['name'],
+                       'siblings': [r['name'] for r in sibs] if tgt else [],
+                       'quote': quote if tgt else '"',
+                       'routes': ([violation['detail']['route']]
+                                  if violation and (violation.get('detail') or {}).get('route')
+                                  in xmlout.ROUTES else None)},
         }
     finally:
         sim.close()
@@ -281,7 +295,7 @@ def mem_diff(a, b):
 
 
 def replay(obj):
-    return run_one(obj['seed'], 'quick')
+    return run_one(obj['seed'], 'quick', explicit=obj)
 
 
 def coverage_extra(results):
